@@ -71,9 +71,24 @@ def isa_db(isa, forms):
     return {"osaca_version": "0.6.1", "isa": isa, "instruction_forms": forms}
 
 
+def dumps(data):
+    """Block-style top level (the lazy loader of OSACA scans for a line containing
+    'instruction_forms:'), JSON flow style below it."""
+    lines = []
+    forms = None
+    for k, v in data.items():
+        if k == "instruction_forms":
+            forms = v
+            continue
+        lines.append("%s: %s" % (k, json.dumps(v)))
+    lines.append("instruction_forms:" + (" []" if not forms else ""))
+    for f in forms or []:
+        lines.append("- " + json.dumps(f))
+    return "\n".join(lines) + "\n"
+
+
 def write(path, data):
     os.makedirs(os.path.dirname(path), exist_ok=True)
     with open(path, "w") as f:
-        f.write(json.dumps(data, indent=None))
-        f.write("\n")
+        f.write(dumps(data))
     return path
